@@ -432,7 +432,17 @@ class Auditor:
             c = e[1]
             name = c.rsplit('::', 1)[-1]
             if c.startswith('core::num::<impl ') and name in ('count_ones', 'trailing_zeros', 'leading_zeros', 'count_zeros'):
-                return (0, 64)
+                ty = c[len('core::num::<impl '):].split('>')[0]
+                bits = TYBITS.get(ty, 64)
+                if name in ('trailing_zeros', 'leading_zeros') and e[2]:
+                    # a non-zero word has at most bits-1 leading / trailing zeros
+                    x = self.canon(e[2][0])
+                    for cnd, tv in env:
+                        if cnd[0] == 'bin' and cnd[1] in ('Eq', 'Ne') and ((cnd[1] == 'Eq') != bool(tv)):
+                            a_, b_ = self.canon(cnd[2]), self.canon(cnd[3])
+                            if (a_ == x and b_[0] == 'int' and b_[1] == 0) or (b_ == x and a_[0] == 'int' and a_[1] == 0):
+                                return (0, bits - 1)
+                return (0, bits)
             if c.startswith('core::num::<impl ') and name.startswith('wrapping_'):
                 ty = c[len('core::num::<impl '):].split('>')[0]
                 return (0, TYMAX.get(ty, U64))
@@ -976,6 +986,20 @@ class Auditor:
                     ks = [x for x in (cnd[2], cnd[3]) if x[0] == 'int']
                     if ks and set(range(ks[0][1] + 1)) <= {v for v in gg['all'] if v != 'otherwise'}:
                         return 'dead: every value of x & %d has its own arm' % ks[0][1]
+            # the same as an `if x & m == 0 {..} else if x & m == 1 {..} .. else { unreachable }` ladder: every value excluded
+            excluded = {}
+            for gg in guards(s, blk):
+                cnd = norm(self.il.inline(gg['cond'])) if gg['cond'] is not None else None
+                tv = truth(gg)
+                if cnd and cnd[0] == 'bin' and cnd[1] in ('Eq', 'Ne') and tv is not None and ((cnd[1] == 'Eq') != tv):
+                    for x, k in ((cnd[2], cnd[3]), (cnd[3], cnd[2])):
+                        if k[0] == 'int' and x[0] == 'bin' and x[1] == 'BitAnd':
+                            ms = [y for y in (x[2], x[3]) if y[0] == 'int']
+                            if ms:
+                                excluded.setdefault((x, ms[0][1]), set()).add(k[1])
+            for (x, m_), ks in excluded.items():
+                if set(range(m_ + 1)) <= ks:
+                    return 'dead: every value of x & %d was excluded by the comparisons before' % m_
             return None
         return None
 
@@ -1060,9 +1084,11 @@ def audit(ctx, R, entries, config='default'):
             if why:
                 ctx.ok(R, '%s -- %s' % (desc, why), where(body, a['line']))
             elif not (aud.f.fns.get(k) or {}).get('pub', True) and '::{closure#' not in k and \
-                    any(isinstance(x, tuple) and x and x[0] == 'param' for o in a['ops'] for x in walk(norm(o))) and \
+                    any(isinstance(x, tuple) and x and (x[0] == 'param' or (x[0] == 'mem' and isinstance(x[1], tuple) and x[1][:1] == ('p',)))
+                        for o in a['ops'] for x in walk(norm(o))) and \
                     private_callers_only(aud.f, k):
-                # a private helper indexes with its own parameter (`fn entry_mask(&self, i)`): the bound is the callers' business
+                # a private helper indexes with its own parameter or with the state behind it (`fn entry_mask(&self, i)`,
+                # `fn next_promotion(&mut self)` reading self.index): the bound is the callers' business
                 ctx.inconclusive(R, '%s: %s on a parameter of a private helper: the bound must come from its callers, which are not followed (%s)' % (
                     k, a['kind'], ', '.join(sh(o, 70) for o in a['ops'])))
             elif '::{closure#' in k and any(isinstance(x, tuple) and x and x[0] == 'param' for o in a['ops'] for x in walk(norm(o))):
